@@ -188,6 +188,9 @@ class ConcatenatedLazyIndexer(LazyIndexer):
                         # An indexer may keep scalar-indexed tail dimensions (e.g. H5DataV1): bring chunk to output shape
                         chunk = self.indexers[ind][tuple([local_indices[chunk_mask]] + keep_tail)]
                         out_data[chunk_mask] = chunk.reshape(tuple([chunk_mask.sum()] + shape_tails))
+        # Byte strings come in the width of the indexers that were visited: deliver the dtype of the concatenation
+        if out_data.dtype != self._initial_dtype:
+            out_data = out_data.astype(self._initial_dtype)
         # Apply transform chain to output data, if any
         return reduce(lambda data, transform: transform(data, original_keep), self.transforms, out_data)
 
